@@ -230,7 +230,7 @@ def work_hex_ptr(task):
     dw = 2 * w
     base = h.labels['buf'] + dw  # buffer cell 0 (cells index 1); index 0 is the low guard
     shared = shared_words(h, w)
-    cell_vals = (0x00, 0xFF, 0xA5, 0x3C) if tier != 'thorough' else (0x00, 0xFF, 0xA5, 0x3C, 0x0F, 0x81)
+    cell_vals = (0x00, 0xFF, 0xA5, 0x3C, 0xF0) if tier != 'thorough' else (0x00, 0xFF, 0xA5, 0x3C, 0x0F, 0x81, 0xF0, 0x10)
     hv = (0x0, 0xF, 0x6)
     bv = (0x00, 0xFF, 0x5A)
     idxs = (0, 1, 2, (1 << w) - 1, (1 << w) - 2)
@@ -239,15 +239,15 @@ def work_hex_ptr(task):
         stats['blocks'] += 1
         uses_idx = 'idx' in call
         n_cells = 2 if name.endswith('2') else 1
-        for cv, hh, bb in itertools.product(cell_vals, hv, bv):
-            if ('h' not in call.split(' ', 1)[1].replace('hex.', '')) and hh != hv[0] and 'v4' not in call:
-                pass
-            for idx in (idxs if uses_idx else (0,)):
-                # chain over ordered (previous target, target) pairs
-                order = []
-                for a in range(K):
-                    for b in range(K):
-                        order += [a, b]
+        full_order = []
+        for a in range(K):
+            for b in range(K):
+                full_order += [a, b]
+        combos = [(cv, hh, bb, idx, full_order) for cv, hh, bb in itertools.product(cell_vals, hv, bv) for idx in (idxs if uses_idx else (0,))]
+        # every byte value of the pointed cell (stale cells: a zero nibble next to a non-zero one, ...) on a short target chain
+        combos += [(cv, 0x6, 0x5A, idx, [0, 5, 5, 2, 7, 0]) for cv in range(256) if cv not in cell_vals for idx in ((0, idxs[-1]) if uses_idx else (0,))]
+        for cv, hh, bb, idx, order in combos:
+            if True:
                 for t in order:
                     cells = [(17 * k + 3) & 0xFF for k in range(K + 3)]
                     cells[t + 1] = cv
